@@ -584,6 +584,11 @@ def gen_recipe(r, cfg=None, profile="mixed"):
             if op in ("QUANTIZE", "LEAKY_RELU", "PRELU"):
                 L["q"] = list(oq)
                 q_ = oq
+            elif op in ("RELU", "RELU6", "RELU_N1_TO_1") and dtype in ("int8", "uint8") and r.random() < 0.25:
+                # a ReLU whose output is quantised differently from its input: same scale and another zero point, or rescaled
+                lo_, hi_ = DTRANGE[dtype]
+                q_ = (x["q"][0], r.randint(lo_, hi_)) if r.random() < 0.5 else oq
+                L["q"] = list(q_)
             else:
                 q_ = x["q"]
             if op == "LEAKY_RELU":
